@@ -30,6 +30,7 @@ pub struct FnSpec {
     pub forloop: BTreeSet<usize>,
     pub may_panic: BTreeSet<usize>,
     pub letsplit: Vec<String>,
+    pub bindspine: Vec<String>,
     pub refop: Vec<String>,
     pub bindarg: Vec<(String, usize, usize, String)>, // (callee, K-th statement-level call, arg index, name)
     pub props: Vec<String>,
@@ -97,6 +98,7 @@ pub struct Unit {
     pub uses: Vec<String>,
     pub features: Vec<String>,
     pub method_map: Vec<(String, String)>,
+    pub iter_fns: Vec<String>,
     pub strlit: Option<String>, // R-STR: string literals in expression position become `<strlit>("lit")`
     pub items: Vec<Item>,
     pub trusted_allow: Vec<String>,
@@ -182,7 +184,7 @@ pub fn preprocess(text: &str, dir: &std::path::Path, depth: usize) -> Result<Str
                 match is_directive(l) {
                     Some(("unit", _)) | Some(("serves", _)) => continue,
                     Some(("prelude", a)) => { flush(&mut buf, &mut pending_fn, &mut out); out.push_str(&format!("@prelude {}\n", a)); }
-                    Some((d, _)) if matches!(d, "fn" | "lift" | "callorder" | "raw" | "spec" | "type" | "impl" | "endimpl" | "const" | "derive" | "use" | "feature" | "enum-eq" | "path-map" | "type-map" | "method-map" | "assume" | "not-under-contract" | "stub-eq" | "trusted-allow" | "strlit") => {
+                    Some((d, _)) if matches!(d, "fn" | "lift" | "callorder" | "raw" | "spec" | "type" | "impl" | "endimpl" | "const" | "derive" | "use" | "feature" | "enum-eq" | "path-map" | "type-map" | "method-map" | "iter-fn" | "assume" | "not-under-contract" | "stub-eq" | "trusted-allow" | "strlit") => {
                         flush(&mut buf, &mut pending_fn, &mut out);
                         pending_fn = matches!(d, "fn" | "lift" | "callorder");
                         buf.push(l.to_string());
@@ -248,6 +250,7 @@ pub fn parse(text: &str) -> Result<Unit, String> {
             "serves" => unit.serves = a.split_whitespace().map(String::from).collect(),
             "prelude" => { for p in a.split_whitespace() { if !unit.prelude.iter().any(|x| x == p) { unit.prelude.push(p.to_string()); } } }
             "enum-eq" => unit.enum_eq.extend(full_trim.split_whitespace().map(String::from)),
+            "iter-fn" => unit.iter_fns.extend(full_trim.split_whitespace().map(String::from)),
             "stub-eq" => unit.stub_eq.extend(full_trim.split_whitespace().map(String::from)),
             "type-map" => {
                 // `From => To`
@@ -405,6 +408,7 @@ pub fn parse(text: &str) -> Result<Unit, String> {
                     "forloop" => { for k in a.split_whitespace() { f.forloop.insert(k.parse().map_err(|_| format!("line {ln}: @forloop K"))?); } }
                     "may-panic" => { for k in a.split_whitespace() { f.may_panic.insert(k.parse().map_err(|_| format!("line {ln}: @may-panic K"))?); } }
                     "letsplit" => f.letsplit.extend(a.split_whitespace().map(String::from)),
+                    "bindspine" => f.bindspine.extend(a.split_whitespace().map(String::from)),
                     "bindarg" => {
                         // @bindarg CALLEE#K IDX NAME
                         let parts: Vec<&str> = a.split_whitespace().collect();
